@@ -1552,6 +1552,8 @@ def _c04_registry(add, tier, TO):
     q("c04_full_sync_parked_vs_send", "quick", "uni_move_full_sync", 2, 1, 0, [["send"]], True)
     q("c04_atomic_first_park_vs_send", "quick", "uni_move_atomic", 2, 1, 0, [["send"]], False)
     q("c04_atomic_parked_vs_two_sends", "quick", "uni_move_atomic", 2, 1, 0, [["send", "send"]], True)
+    q("c04_atomic_parked_k2_vs_send_n4", "quick", "uni_move_atomic", 4, 1, 2, [["send"]], True)
+    q("c04_full_sync_parked_k2_vs_send_n4", "quick", "uni_move_full_sync", 4, 1, 2, [["send"]], True)
     q("c04_atomic_parked_vs_reserved_ms1", "quick", "uni_move_atomic", 2, 1, 0, [["reserved"]], True)
     q("c04_atomic_parked_vs_reserved_ms2", "quick", "uni_move_atomic", 2, 2, 0, [["reserved"]], True)
     q("c04_atomic_parked_vs_send_ms2", "quick", "uni_move_atomic", 2, 2, 0, [["send"]], True)
